@@ -192,6 +192,10 @@ func (iss *ACMEIssuer) newACMEClient(useTestCA bool) (*acmez.Client, error) {
 
 	// fill in a little more beyond a basic client
 	if useTestCA && iss.TestCA != "" {
+		// the test CA is contacted instead of the CA: it must pass the same check
+		if _, err := secureCAURL(iss.TestCA); err != nil {
+			return nil, err
+		}
 		client.Client.Directory = iss.TestCA
 	}
 	certObtainTimeout := iss.CertObtainTimeout
@@ -262,16 +266,9 @@ func (iss *ACMEIssuer) newBasicACMEClient() (*acmez.Client, error) {
 	if caURL == "" {
 		caURL = DefaultACME.CA
 	}
-	// ensure endpoint is secure (assume HTTPS if scheme is missing)
-	if !strings.Contains(caURL, "://") {
-		caURL = "https://" + caURL
-	}
-	u, err := url.Parse(caURL)
+	caURL, err := secureCAURL(caURL)
 	if err != nil {
 		return nil, err
-	}
-	if u.Scheme != "https" && !SubjectIsInternal(u.Host) {
-		return nil, fmt.Errorf("%s: insecure CA URL (HTTPS required for non-internal CA)", caURL)
 	}
 	return &acmez.Client{
 		Client: &acme.Client{
@@ -281,6 +278,22 @@ func (iss *ACMEIssuer) newBasicACMEClient() (*acmez.Client, error) {
 			Logger:     slog.New(zapslog.NewHandler(iss.Logger.Named("acme_client").Core())),
 		},
 	}, nil
+}
+
+// secureCAURL ensures the CA endpoint is secure (assuming HTTPS if the scheme is
+// missing) and returns the URL to use: HTTPS is required unless the host is internal.
+func secureCAURL(caURL string) (string, error) {
+	if !strings.Contains(caURL, "://") {
+		caURL = "https://" + caURL
+	}
+	u, err := url.Parse(caURL)
+	if err != nil {
+		return "", err
+	}
+	if u.Scheme != "https" && !SubjectIsInternal(u.Host) {
+		return "", fmt.Errorf("%s: insecure CA URL (HTTPS required for non-internal CA)", caURL)
+	}
+	return caURL, nil
 }
 
 // GetRenewalInfo gets the ACME Renewal Information (ARI) for the certificate.
